@@ -34,7 +34,7 @@ ASSUMPTIONS = [
     'frames); outcomes are taken from the plain run',
 ]
 NSH = 16
-NCASE = {'quick': 19_200, 'thorough': 200_000}
+NCASE = {'quick': 19_200, 'thorough': 400_000}
 RECURSION_LIMIT = 1000
 BUDGET = 100_000
 O = isa.op
